@@ -1,6 +1,7 @@
 import MJ.Proofs.Store
 import MJ.Proofs.StoreIter
 import MJ.Proofs.Hidden
+import MJ.Proofs.MemoConc
 import MJ.Gen.Tables
 /-!
 # C15 — an environment's behaviour depends on its contents, not on its history
@@ -613,6 +614,119 @@ open MJ.Hidden in
 theorem source_handle_registry_as_modelled :
     MJ.Gen.c15HandleRegistry.map (·.1) = modelHandleRegistry.map (·.1) ∧
     handleRegistrySafe MJ.Gen.c15HandleRegistry = true := by
+  decide
+
+/-! ## the memoising tier under concurrency: all interleavings at lock granularity
+
+`MJ/Model/MemoConc.lean`: any number of threads perform lookups on ONE shared store; a lookup that
+misses the borrowed tier goes through `acquire` / `look` / `create + insert` / `release` as separate
+steps; the schedule — which thread moves next, and when the outside world changes what the loader
+answers — is arbitrary. -/
+
+open MJ.MemoConc in
+/-- Linearizability against the plain sequential store.  For EVERY schedule, the run of the threads
+    is equivalent to the sequential history `σ.history` (each lookup placed where it took effect,
+    each change of the outside world where it happened):
+    * the shared store is exactly what `Store.run` — the sequential model all other theorems are
+      about — makes of that history,
+    * every thread got, for each of its lookups, the answer the sequential run gives at that place,
+    * and the history contains every thread's lookups in that thread's own order (what it has
+      answered so far followed by what it still has to do is its program). -/
+theorem concurrent_lookups_linearizable (c : LtCfg → Source → Bool) (s : Store) (todos : List (List Name))
+    (sched : List Ev) :
+    let σ := (Sys.start s todos).run c sched
+    σ.store = Store.run c s σ.history ∧
+    (∀ i t, σ.thr[i]? = some t → t.answers = seqAnswers c s σ.trace (some i)) ∧
+    (∀ (i : Nat) (t : Thr), σ.thr[i]? = some t → todos[i]? = some ((t.done.map (·.1)).reverse ++ t.todo)) := by
+  intro σ
+  have h := run_ref c s sched _ (start_inv s todos) (start_ref c s todos)
+  exact ⟨h.1.1.symm, h.1.2, run_prog c todos sched _ (start_inv s todos) (start_prog s todos)⟩
+
+open MJ.MemoConc in
+example : -- three threads, one of them answered from the borrowed tier without the lock; thread 1 is
+          -- blocked while thread 0 creates; the outside world changes in between
+    let c : LtCfg → Source → Bool := fun _ _ => true
+    let s : Store := { loader := some (fun _ => .src 1), cfg := cfgA, borrowed := [(5, (9, cfgA))], owned := [] }
+    let σ := (Sys.start s [[0, 5], [0], [5, 0]]).run c
+      [.thread 0, .thread 1, .thread 0, .thread 2, .world (fun _ => .src 2), .thread 0, .thread 1, .thread 0,
+       .thread 1, .thread 1, .thread 1, .thread 0, .thread 2, .thread 2, .thread 2]
+    σ.thr.map (·.answers) =
+      [[(5, .found (9, cfgA)), (0, .found (2, cfgA))], [(0, .found (2, cfgA))], [(0, .found (2, cfgA)), (5, .found (9, cfgA))]] ∧
+    σ.history.length = 6 := by
+  decide
+
+open MJ.MemoConc in
+/-- Mutual exclusion is a consequence of the model's mutex, not an assumption: in every reachable
+    state at most one thread is between `acquire` and `release`. -/
+theorem concurrent_mutual_exclusion (c : LtCfg → Source → Bool) (s : Store) (todos : List (List Name))
+    (sched : List Ev) (i j : Nat) (ti tj : Thr)
+    (hi : ((Sys.start s todos).run c sched).thr[i]? = some ti)
+    (hj : ((Sys.start s todos).run c sched).thr[j]? = some tj)
+    (hni : ti.pc ≠ .idle) (hnj : tj.pc ≠ .idle) : i = j := by
+  have hinv := run_inv c sched _ (start_inv s todos)
+  have a := hinv i ti hi
+  have b := hinv j tj hj
+  have la : ((Sys.start s todos).run c sched).lock = some i := by
+    unfold ThrOk at a
+    split at a
+    · rename_i h; exact absurd h hni
+    · exact a.1
+    · exact a.1
+    · exact a.1
+  have lb : ((Sys.start s todos).run c sched).lock = some j := by
+    unfold ThrOk at b
+    split at b
+    · rename_i h; exact absurd h hnj
+    · exact b.1
+    · exact b.1
+    · exact b.1
+  rw [la] at lb
+  exact Option.some.inj lb
+
+open MJ.MemoConc in
+/-- Stickiness under concurrency: whatever the threads do and however the outside world changes, an
+    entry of the memo map — a loader-backed template once loaded by ANY thread — is never replaced
+    while the environment is shared: from any reachable state on, it stays what it is. -/
+theorem concurrent_entries_never_replaced (c : LtCfg → Source → Bool) (s : Store) (todos : List (List Name))
+    (sched more : List Ev) (n : Name) (x : Tmpl × Origin)
+    (h : find ((Sys.start s todos).run c sched).store.owned n = some x) :
+    find (((Sys.start s todos).run c sched).run c more).store.owned n = some x :=
+  run_owned_kept c more n x _ (run_inv c sched _ (start_inv s todos)) h
+
+open MJ.MemoConc in
+/-- "The same template gives the same result from any number of threads at once": when the outside
+    world does not change during the concurrent phase (the loader answers as a function of the name),
+    EVERY answer ANY thread gets for a name, under EVERY schedule, is the answer a single lookup in
+    the store as it was before the phase gives. -/
+theorem concurrent_same_answer (c : LtCfg → Source → Bool) (s : Store) (todos : List (List Name))
+    (sched : List Ev) (hs : onlyThreads sched = true) (i : Nat) (t : Thr)
+    (hi : ((Sys.start s todos).run c sched).thr[i]? = some t) :
+    ∀ p ∈ t.answers, p.2 = (s.get c p.1).2 := by
+  have h := run_ref c s sched _ (start_inv s todos) (start_ref c s todos)
+  rw [h.1.2 i t hi]
+  exact seqAnswers_pure c s (some i) _
+    (run_trace_gets c sched hs _ (by intro x hx; simp [Sys.start] at hx))
+
+open MJ.MemoConc in
+/-- What the mutex is for: with `acquire`/`release` doing nothing, two threads can both miss and both
+    create — with a loader whose answer changed in between, they return DIFFERENT templates for one
+    name, and the first one's entry has been replaced behind its back.  With the mutex the same
+    schedule gives both the same template. -/
+theorem without_mutex_answers_diverge :
+    ∃ (s : Store) (sched : List Ev),
+      ((Sys.start s [[0], [0]]).runNoLock (fun _ _ => true) sched).thr.map (·.answers)
+        = [[(0, .found (1, cfgA))], [(0, .found (2, cfgA))]] ∧
+      ((Sys.start s [[0], [0]]).run (fun _ _ => true) (sched ++ [.thread 1, .thread 1, .thread 1])).thr.map (·.answers)
+        = [[(0, .found (1, cfgA))], [(0, .found (1, cfgA))]] :=
+  ⟨{ loader := some (fun _ => .src 1), cfg := cfgA, borrowed := [], owned := [] },
+   [.thread 0, .thread 0, .thread 1, .thread 1, .thread 0, .world (fun _ => .src 2), .thread 1, .thread 0, .thread 1],
+   by decide⟩
+
+open MJ.MemoConc in
+/-- the facts about memo-map (the version in Cargo.lock, read from the cargo registry) are the ones
+    the concurrent model was written against -/
+theorem memo_map_source_as_modelled :
+    MJ.Gen.c15MemoMap = modelMemoMap ∧ memoMapSafe MJ.Gen.c15MemoMap = true := by
   decide
 
 /-! ## tie to the source text -/
